@@ -20,6 +20,7 @@ import (
 	"github.com/aptpod/iscp-go/iscp"
 	"github.com/aptpod/iscp-go/message"
 	"github.com/aptpod/iscp-go/transport"
+	"github.com/aptpod/iscp-go/transport/reconnect"
 )
 
 const callTimeout = 5 * time.Second
@@ -56,6 +57,10 @@ func scenarios(tier string) []vlib.Scenario {
 	// outage): Upstream.Close and a second writer, each with a short context of its own, must still return in time
 	out = append(out, vlib.Scenario{Name: params{"writeblocked", 0, 0}.name(), P: params{"writeblocked", 0, 0}})
 	out = append(out, vlib.Scenario{Name: params{"writeblocked", 0, 1}.name(), P: params{"writeblocked", 0, 1}})
+	// the same with the reconnectable transport layer (what the multi transport is built from) underneath: its own
+	// redial budget (8 attempts, 1 s apart) must not govern Conn.Close or a call with a context
+	out = append(out, vlib.Scenario{Name: params{"closeoutage-rt", 0, 0}.name(), P: params{"closeoutage-rt", 0, 0}})
+	out = append(out, vlib.Scenario{Name: params{"closeoutage-rt", 0, 1}.name(), P: params{"closeoutage-rt", 0, 1}})
 	// an option value the wire layer refuses by panicking (the caller recovers): later calls still work
 	out = append(out, vlib.Scenario{Name: params{"badqos", 0, 0}.name(), P: params{"badqos", 0, 0}})
 	if tier == "thorough" {
@@ -76,6 +81,9 @@ func config(sc vlib.Scenario, tier string) vsched.Config {
 	cfg.Budget[vsched.BudP] = p.P
 	cfg.Budget[vsched.BudF] = p.F
 	cfg.Scope = func(site string) bool {
+		if p.API == "closeoutage-rt" && strings.HasPrefix(site, "transport/reconnect.") {
+			return true
+		}
 		return strings.HasPrefix(site, "iscp.") || strings.HasPrefix(site, "wire.(*ClientConn).sendRequest") || strings.HasPrefix(site, "wire.(*ClientConn).read")
 	}
 	return cfg
@@ -275,6 +283,13 @@ func (w *world) timedBackground(name string, bound time.Duration, f func(ctx con
 }
 
 func (w *world) main() {
+	if w.p.API == "closeoutage-rt" {
+		w.WrapDialer = func(d transport.Dialer) transport.Dialer {
+			return transport.DialerFunc(func(cfg transport.DialConfig) (transport.Transport, error) {
+				return reconnect.Dial(reconnect.DialConfig{Dialer: d, DialConfig: cfg, MaxReconnectAttempts: 8, ReconnectInterval: time.Second})
+			})
+		}
+	}
 	if err := w.Connect(w.script()); err != nil {
 		return
 	}
@@ -392,6 +407,20 @@ func (w *world) main() {
 		w.timed("Write", callTimeout, false, func(ctx context.Context) error { return w.up.Write(ctx, kit.IDA, "third") })
 		w.timed("Conn.Close", callTimeout, false, func(ctx context.Context) error { return w.Conn.Close(ctx) })
 		pwg.Wait()
+		api = "connclose"
+	case "closeoutage-rt":
+		w.unreachable = true
+		w.B.Cut(w.B.Live())
+		what := vsched.Choose("what", 2)
+		if vsched.Choose("close-when", 2) == 1 {
+			vsched.Sleep(2500*time.Millisecond, "h:outage")
+		}
+		if what == 1 {
+			w.timed("SendMetadata", time.Second, false, func(ctx context.Context) error {
+				return w.Conn.SendMetadata(ctx, &message.BaseTime{SessionID: "s", Name: "n"})
+			})
+		}
+		w.timed("Conn.Close", time.Second, false, func(ctx context.Context) error { return w.Conn.Close(ctx) })
 		api = "connclose"
 	case "closeoutage":
 		w.unreachable = true
